@@ -88,9 +88,10 @@ NodeValid(g, n) ==
 GraphValid(e) == (~e.validated) \/ (\A n \in 1..e.g.n : NodeValid(e.g, n))
 
 (* ---------------- the event ---------------- *)
-Checks(e) ==
+\* (the reference table `tab` is a STATE VARIABLE computed one event ahead: a LET-bound table would be
+\*  re-evaluated by TLC at every reference, i.e. once per audited claim)
+ChecksWith(e, tab) ==
   LET g == e.g
-      tab == MMTab(g, e.d)
       fr == e.fresh
   IN [H_graph_is_the_game_graph |-> GraphValid(e),
       H_claims_covered |-> /\ \A i \in 1..Len(fr) : \A j \in 1..Len(fr[i].entries) : ClaimCovered(g, tab, fr[i].entries[j])
@@ -98,7 +99,8 @@ Checks(e) ==
       C05_no_panic |-> \A i \in 1..Len(fr) : "panic" \notin DOMAIN fr[i],
       C05_value_is_minimax |-> \A i \in 1..Len(fr) : fr[i].deeper = 0 => Cls(fr[i].score) = MM(tab, 1, fr[i].d),
       C05_move_attains_value |-> \A i \in 1..Len(fr) : fr[i].deeper = 0 => ResultTrue(g, tab, fr[i].d, fr[i].score, fr[i].move),
-      C05_cached_claims_true |-> \A i \in 1..Len(fr) : \A j \in 1..Len(fr[i].entries) : ClaimTrue(tab, fr[i].entries[j]),
+      \* (a run that reused an entry cached by a DEEPER search is outside the property: the reference is ambiguous)
+      C05_cached_claims_true |-> \A i \in 1..Len(fr) : fr[i].deeper = 0 => \A j \in 1..Len(fr[i].entries) : ClaimTrue(tab, fr[i].entries[j]),
       C06_no_panic |-> "abort" \in DOMAIN e => e.abort.panics = 0,
       C06_claims_after_interruption_true |-> "abort" \in DOMAIN e =>
                            \A j \in 1..Len(e.abort.claims) : ClaimTrue(tab, e.abort.claims[j]),
@@ -108,32 +110,35 @@ Checks(e) ==
                            \A j \in 1..Len(e.abort.reps) : e.abort.reps[j][2] = e.abort.reps[j][1] /\ e.abort.reps[j][3] = e.abort.reps[j][1]]
 
 \* witnesses for the diagnostic run: the first false claim / result with the reference value
-FirstBad(e) ==
-  LET g == e.g  tab == MMTab(g, e.d)
+FirstBadWith(e, tab) ==
+  LET g == e.g
       badc == IF "abort" \in DOMAIN e THEN {j \in 1..Len(e.abort.claims) : ~ClaimTrue(tab, e.abort.claims[j])} ELSE {}
       badr == IF "abort" \in DOMAIN e THEN {j \in 1..Len(e.abort.results) : ~ResultTrue(g, tab, e.abort.d, e.abort.results[j][1], e.abort.results[j][2])} ELSE {}
-      badf == {x \in UNION {{<<i, j>> : j \in 1..Len(e.fresh[i].entries)} : i \in 1..Len(e.fresh)} : ~ClaimTrue(tab, e.fresh[x[1]].entries[x[2]])}
+      badf == {x \in UNION {{<<i, j>> : j \in 1..Len(e.fresh[i].entries)} : i \in {k \in 1..Len(e.fresh) : e.fresh[k].deeper = 0}} :
+                  ~ClaimTrue(tab, e.fresh[x[1]].entries[x[2]])}
   IN [root_minimax |-> [d \in 0..e.d |-> MM(tab, 1, d)],
       bad_claim_after_abort |-> IF badc = {} THEN <<>> ELSE LET j == CHOOSE x \in badc : TRUE IN
                                   <<e.abort.claims[j], "node", g.fen[e.abort.claims[j][1]], "reference", MM(tab, e.abort.claims[j][1], e.abort.claims[j][2])>>,
       bad_result_after_abort |-> IF badr = {} THEN <<>> ELSE e.abort.results[CHOOSE x \in badr : TRUE],
       bad_fresh_claims |-> Cardinality(badf)]
 
-VARIABLES l, skipped
-vars == <<l, skipped>>
-TInit == l = 1 /\ skipped = 0
+VARIABLES l, skipped, reftab
+vars == <<l, skipped, reftab>>
+TabFor(i) == IF i <= Len(Rec) THEN MMTab(Rec[i].g, Rec[i].d) ELSE <<>>
+TInit == l = 1 /\ skipped = 0 /\ reftab = TabFor(1)
 IsEvent(x) == l <= Len(Rec) /\ Rec[l].ev = x /\ l' = l + 1
 
 \* positions that are not Valid are outside the quantifier of the properties: skipped, counted
 TGraph == /\ IsEvent("graph")
           /\ IF Valid(FromJson(Rec[l].root))
-             THEN (LET c == Checks(Rec[l]) IN \A k \in DOMAIN c : c[k]) /\ UNCHANGED skipped
+             THEN (LET c == ChecksWith(Rec[l], reftab) IN \A k \in DOMAIN c : c[k]) /\ UNCHANGED skipped
              ELSE skipped' = skipped + 1
+          /\ reftab' = TabFor(l + 1)
 TNext == TGraph
 TSpec == TInit /\ [][TNext]_vars
 
 Diag == (l = StuckAt /\ l <= Len(Rec)) =>
-          PrintT(<<"DIAG", l, Rec[l].rootfen, Checks(Rec[l]), FirstBad(Rec[l])>>)
+          PrintT(<<"DIAG", l, Rec[l].rootfen, ChecksWith(Rec[l], reftab), FirstBadWith(Rec[l], reftab)>>)
 Skipped == (l = Len(Rec) + 1) => PrintT(<<"SKIPPED-NOT-VALID", skipped>>)
 Accepted == LET d == TLCGet("stats").diameter
             IN IF d = Len(Rec) + 1 THEN TRUE ELSE Print(<<"REJECTED", d>>, FALSE)
